@@ -25,7 +25,7 @@ InitCur == [model |-> EmptyModel, memo |-> <<>>, other |-> EmptyModel,
             pj |-> [out |-> "none", anom |-> <<>>, post |-> EmptyModel]]
 
 BuilderActions == {"NewModel", "AddRelation", "SetAbstract", "SetType", "SetFCard",
-                   "AddAttribute", "AddConstraint"}
+                   "AddAttribute", "AddConstraint", "ReplaceConstraint"}
 
 ---------------------------------------------------------------------------
 (* Well-formedness clauses (C02), evaluated on any projected model *)
@@ -49,6 +49,7 @@ BuildExpected(cur, e) ==
     [] e.a = "SetFCard"      -> SetFCardF(cur.model, e.args.f, e.args.lo, e.args.hi)
     [] e.a = "AddAttribute"  -> AddAttributeF(cur.model, e.args.f, e.args.n, e.args.val, e.args.dom, e.args.nul)
     [] e.a = "AddConstraint" -> AddConstraintF(cur.model, e.args.n, e.args.ast)
+    [] e.a = "ReplaceConstraint" -> [cur.model EXCEPT !.ctcs[Len(cur.model.ctcs)].ast = e.args.ast]
 BuildClauses(cur, e) ==
   << <<"C03.build.shape", e.anom = <<>> >>,
      <<"C03.build.step",  SameModel(e.post, BuildExpected(cur, e))>> >>
